@@ -8,7 +8,7 @@ use brush_core::{ExecutionControlFlow, ExecutionExitCode, ExecutionResult, built
 pub(crate) struct ReturnCommand {
     /// The exit code to return.
     #[arg(allow_hyphen_values = true)]
-    code: Option<i32>,
+    code: Option<i64>,
 }
 
 impl builtins::Command for ReturnCommand {
